@@ -78,6 +78,9 @@ func (f *Subsetp) Call(s *slip.Scope, args slip.List, depth int) slip.Object {
 	if v, ok := slip.GetArgsKeyValue(args, slip.Symbol(":test")); ok {
 		tc = ResolveToCaller(s, v, depth)
 	}
+	if v, ok := slip.GetArgsKeyValue(args, slip.Symbol(":test-not")); ok {
+		tc = notCaller{Caller: ResolveToCaller(s, v, depth)}
+	}
 	keys := list2
 	if kc != nil {
 		keys = make(slip.List, len(list2))
